@@ -18,14 +18,13 @@ def coeff : List (Int × α) → Int → α
   | [], _ => 0
   | (k', c) :: t, k => if k' = k then c + coeff t k else coeff t k
 
-/-- drop adjacent duplicates of a sorted list -/
-def dedupAdj : List Int → List Int
-  | [] => []
-  | [a] => [a]
-  | a :: b :: t => if a = b then dedupAdj (b :: t) else a :: dedupAdj (b :: t)
+/-- insert a key into an ascending duplicate-free list -/
+def insertKey (k : Int) : List Int → List Int
+  | [] => [k]
+  | a :: t => if k < a then k :: a :: t else if k = a then a :: t else a :: insertKey k t
 
 /-- ascending candidate support without repetitions -/
-def sortedKeys (ks : List Int) : List Int := dedupAdj (ks.mergeSort (fun a b => decide (a ≤ b)))
+def sortedKeys (ks : List Int) : List Int := ks.foldr insertKey []
 
 /-- canonical form of the function `f` whose support is inside `ks` -/
 def canonOn (ks : List Int) (f : Int → α) : List (Int × α) :=
